@@ -22,6 +22,7 @@ ASSUMPTIONS = [
     'affine / bi-affine functions are decided by their values on the basis assignments (linear algebra)',
     'leaf value is defined by the leaf object\'s own to_affine() fields (checked to be the identity slice for plain variables)',
     'where NumPy raises and RSOME returns a value the property is silent: counted as extension, not alarmed',
+    'an expression object used as an operand must keep its coefficients (compared densely, zero-column padding allowed)',
     'RSOME raising where NumPy succeeds is "unsupported" (allowed by the property)',
 ]
 TRUSTED = ['CPython', 'NumPy operators as reference', 'scipy.sparse arithmetic used to read Affine.linear']
@@ -261,6 +262,34 @@ class Env:
         raise ValueError(k)
 
 
+def snapshot(obj):
+    """Dense copy of the observable fields of an expression object (None for lazy/plain variables)."""
+    lp = _rs['lp']
+    if isinstance(obj, lp.RoAffine):
+        return ('ro', snapshot(obj.raffine), snapshot(obj.affine))
+    if isinstance(obj, lp.Affine):
+        return ('af', np.array(obj.linear.toarray()), np.array(obj.const, dtype=float, copy=True), tuple(obj.shape))
+    return None
+
+
+def same_snapshot(a, b):
+    if a is None or b is None:
+        return a is b
+    if a[0] != b[0]:
+        return False
+    if a[0] == 'ro':
+        return same_snapshot(a[1], b[1]) and same_snapshot(a[2], b[2])
+    if a[3] != b[3] or a[2].shape != b[2].shape or not np.array_equal(a[2], b[2]):
+        return False
+    la, lb = a[1], b[1]
+    if la.shape[0] != lb.shape[0]:
+        return False
+    w = max(la.shape[1], lb.shape[1])      # operands may legitimately be padded with zero columns
+    pa = np.zeros((la.shape[0], w)); pa[:, :la.shape[1]] = la
+    pb = np.zeros((lb.shape[0], w)); pb[:, :lb.shape[1]] = lb
+    return np.array_equal(pa, pb)
+
+
 def is_rs(obj):
     lp = _rs['lp']
     return isinstance(obj, (lp.Vars, lp.Affine, lp.RoAffine, lp.DecRule, lp.DecRuleSub))
@@ -453,10 +482,13 @@ def run_case(case):
     env = Env(fe, case['L'])
     # ---- RSOME side
     rs_err = None
+    watched = [(('leaf%d' % i), l, snapshot(l)) for i, l in enumerate(env.leaves)]
     try:
         e = env.leaves[0]
-        for op in ops:
+        for k, op in enumerate(ops):
             e = apply_op(op, e, env, None, True)
+            if k + 1 < len(ops):
+                watched.append(('step%d' % (k + 1), e, snapshot(e)))
         if isinstance(e, (lp.DecRule, lp.DecRuleSub, lp.Vars)):
             e = e.to_affine()      # lazy objects: expansion is part of the operation
     except Exception as ex:  # noqa
@@ -483,6 +515,11 @@ def run_case(case):
     except Exception as ex:  # noqa
         np_err = '%s: %s' % (type(ex).__name__, str(ex)[:80])
 
+    # operands and intermediate expressions must still denote what they denoted before they were used
+    for name, obj, snap in watched:
+        if snap is not None and not same_snapshot(snap, snapshot(obj)):
+            return {'status': 'violation', 'sig': tag + '|operand mutated', 'ops': nops,
+                    'detail': '%s changed its coefficients after being used as an operand' % name}
     if np_err is not None and rs_err is not None:
         return {'status': 'pass', 'outcome': 'both_raise', 'ops': nops, 'nontrivial': False}
     if rs_err is not None:
